@@ -52,6 +52,59 @@ def _pure(e) -> bool:
     return True
 
 
+def plain_annassign(stmts: List[ast.stmt]) -> List[ast.stmt]:
+    """`x: T = e` -> `x = e` (recursively); a bare annotation `x: T` is dropped"""
+    out = []
+    for s in stmts:
+        if isinstance(s, ast.AnnAssign) and isinstance(s.target, ast.Name) and s.simple:
+            if s.value is None:
+                continue
+            s = ast.copy_location(ast.Assign([s.target], s.value), s)
+        for fld in ("body", "orelse", "finalbody"):
+            v = getattr(s, fld, None)
+            if isinstance(v, list) and v and all(isinstance(x, ast.stmt) for x in v):
+                setattr(s, fld, plain_annassign(v) or [ast.Pass()])
+        out.append(s)
+    return out
+
+
+def split_assign(stmts: List[ast.stmt]) -> List[ast.stmt]:
+    """SPLIT alone: `a, b = x, y` -> `a = x; b = y` when no target is read by a later element (recursively)"""
+    out = []
+    for s in stmts:
+        if isinstance(s, ast.Assign) and len(s.targets) == 1 and isinstance(s.targets[0], (ast.Tuple, ast.List)) \
+                and isinstance(s.value, (ast.Tuple, ast.List)) and len(s.targets[0].elts) == len(s.value.elts) \
+                and not any(isinstance(e, ast.Starred) for e in s.targets[0].elts + s.value.elts):
+            names = [ast.unparse(t) for t in s.targets[0].elts]
+            reads = [{ast.unparse(n) for n in ast.walk(v) if isinstance(n, (ast.Name, ast.Attribute, ast.Subscript))} for v in s.value.elts]
+            if not any(names[a] in reads[b] for a in range(len(names)) for b in range(a + 1, len(names))):
+                for t, v in zip(s.targets[0].elts, s.value.elts):
+                    out.append(ast.copy_location(ast.Assign([t], v), s))
+                continue
+        for fld in ("body", "orelse", "finalbody"):
+            v = getattr(s, fld, None)
+            if isinstance(v, list) and v and all(isinstance(x, ast.stmt) for x in v):
+                setattr(s, fld, split_assign(v))
+        out.append(s)
+    return out
+
+
+def module_namedtuples(mod: ast.Module) -> Dict[str, tuple]:
+    """module-level `X = namedtuple("X", [fields])` / `class X(NamedTuple): a: T ...` -> {X: (fields...)}"""
+    out: Dict[str, tuple] = {}
+    for st in mod.body:
+        if isinstance(st, ast.Assign) and len(st.targets) == 1 and isinstance(st.targets[0], ast.Name) and isinstance(st.value, ast.Call) \
+                and ast.unparse(st.value.func).split(".")[-1] == "namedtuple" and len(st.value.args) >= 2:
+            f = st.value.args[1]
+            if isinstance(f, (ast.List, ast.Tuple)) and all(isinstance(e, ast.Constant) and isinstance(e.value, str) for e in f.elts):
+                out[st.targets[0].id] = tuple(e.value for e in f.elts)
+            elif isinstance(f, ast.Constant) and isinstance(f.value, str):
+                out[st.targets[0].id] = tuple(f.value.replace(",", " ").split())
+        elif isinstance(st, ast.ClassDef) and any(ast.unparse(b).split(".")[-1] == "NamedTuple" for b in st.bases):
+            out[st.name] = tuple(a.target.id for a in st.body if isinstance(a, ast.AnnAssign) and isinstance(a.target, ast.Name))
+    return out
+
+
 def module_constants(mod: ast.Module) -> Dict[str, ast.expr]:
     """module-level NAME = <number / string / bool literal>, assigned exactly once and never declared global in a function"""
     counts: Dict[str, int] = {}
@@ -84,8 +137,9 @@ def module_constants(mod: ast.Module) -> Dict[str, ast.expr]:
 
 class Normaliser:
     def __init__(self, resolve_call: Optional[Callable[[ast.Call], Optional[ast.FunctionDef]]] = None, max_inline=4,
-                 consts: Optional[Dict[str, ast.expr]] = None):
+                 consts: Optional[Dict[str, ast.expr]] = None, namedtuples: Optional[Dict[str, tuple]] = None):
         self.consts = consts or {}
+        self.namedtuples: Dict[str, tuple] = dict(namedtuples or {})
         self.resolve_call = resolve_call
         self.max_inline = max_inline
         self.inlined: List[str] = []
@@ -110,15 +164,69 @@ class Normaliser:
             return False
         return True
 
+    @staticmethod
+    def single_exit(h: ast.FunctionDef) -> Optional[ast.FunctionDef]:
+        """a helper with guard returns (`if c: ...; return a` ... `return d`, nested ifs allowed; no return inside a loop / try / with) rewritten
+        with one result variable and a single final return: semantically the same function"""
+        rname = "ret__"
+
+        def has_ret(x):
+            return any(isinstance(n, ast.Return) for n in ast.walk(x))
+
+        def conv(stmts) -> Optional[List[ast.stmt]]:
+            out: List[ast.stmt] = []
+            for i, st in enumerate(stmts):
+                if isinstance(st, ast.Return):
+                    out.append(ast.Assign([ast.Name(rname, ast.Store())], st.value if st.value is not None else ast.Constant(None), lineno=st.lineno))
+                    return out            # anything after a return is dead
+                if isinstance(st, ast.If) and has_ret(st):
+                    rest = list(stmts[i + 1:])
+                    b_ends = _ends_with_exit(st.body) and isinstance(st.body[-1], ast.Return)
+                    o_ends = bool(st.orelse) and isinstance(st.orelse[-1], ast.Return)
+                    body = conv(st.body + ([] if b_ends else rest))
+                    orelse = conv((st.orelse or []) + ([] if o_ends else rest))
+                    if body is None or orelse is None:
+                        return None
+                    new = ast.If(st.test, body or [ast.Pass()], orelse, lineno=st.lineno)
+                    out.append(new)
+                    return out
+                if has_ret(st):
+                    return None           # a return inside a loop / try / with
+                out.append(st)
+            # fell off the end without a return
+            out.append(ast.Assign([ast.Name(rname, ast.Store())], ast.Constant(None), lineno=getattr(stmts[-1], "lineno", 0) if stmts else 0))
+            return out
+        body = [s_ for s_ in h.body if not (isinstance(s_, ast.Expr) and isinstance(s_.value, ast.Constant))]
+        if any(isinstance(n, ast.Name) and n.id == rname for n in ast.walk(h)):
+            return None
+        new = conv(copy.deepcopy(body))
+        if new is None:
+            return None
+        h2 = copy.copy(h)
+        h2.body = new + [ast.Return(ast.Name(rname, ast.Load()), lineno=h.lineno)]
+        ast.fix_missing_locations(h2)
+        return h2
+
     def _expand(self, call: ast.Call, h: ast.FunctionDef, target, depth) -> Optional[List[ast.stmt]]:
+        if not self._inlinable(h) and depth <= self.max_inline:
+            nrets = sum(isinstance(n, ast.Return) for n in ast.walk(h))
+            if nrets > 1:
+                h2 = self.single_exit(h)
+                if h2 is not None and self._inlinable(h2):
+                    h = h2
         if not self._inlinable(h) or depth > self.max_inline:
             return None
         deco = {ast.unparse(d) for d in h.decorator_list}
         pos = [a.arg for a in h.args.posonlyargs + h.args.args]
         is_method = isinstance(call.func, ast.Attribute) and isinstance(call.func.value, ast.Name) and call.func.value.id in ("self", "cls")
+        is_super = isinstance(call.func, ast.Attribute) and isinstance(call.func.value, ast.Call) and isinstance(call.func.value.func, ast.Name) \
+            and call.func.value.func.id == "super"
         keep = {}
         if is_method and "staticmethod" not in deco and pos:
             keep[pos[0]] = call.func.value.id       # self / cls stay what they are
+            pos = pos[1:]
+        elif is_super and "staticmethod" not in deco and pos:
+            keep[pos[0]] = "cls" if "classmethod" in deco else "self"
             pos = pos[1:]
         if any(isinstance(a, ast.Starred) for a in call.args) or any(k.arg is None for k in call.keywords) or len(call.args) > len(pos):
             return None
@@ -175,7 +283,16 @@ class Normaliser:
         self.caller_names |= {(L if L in keepname else pre + L) for L in local}
         if body and isinstance(body[-1], ast.Return):
             r = body.pop()
-            if target is not None and target != "return" and r.value is not None:
+            if target is not None and target != "return" and r.value is not None and len(target) == 1 and isinstance(target[0], ast.Name) \
+                    and isinstance(r.value, ast.Name) and r.value.id.endswith("ret__") \
+                    and not any(isinstance(n, ast.Name) and n.id == target[0].id for s_ in body for n in ast.walk(s_)) \
+                    and not any(isinstance(n, ast.Name) and n.id == target[0].id for s_ in out for n in ast.walk(s_)):
+                # the single-exit result variable IS the caller's target: build the result under that name
+                for s_ in body:
+                    for n in ast.walk(s_):
+                        if isinstance(n, ast.Name) and n.id == r.value.id:
+                            n.id = target[0].id
+            elif target is not None and target != "return" and r.value is not None:
                 body.append(ast.Assign([copy.deepcopy(t) for t in target], r.value, lineno=call.lineno))
             elif target == "return":
                 body.append(r)
@@ -280,6 +397,28 @@ class Normaliser:
         everything evaluated before it is side-effect free (names, attributes, constants)"""
         if not isinstance(s, (ast.Assign, ast.Expr, ast.Return, ast.AugAssign)) or getattr(s, "value", None) is None:
             return None
+        if isinstance(s, ast.Assign) and len(s.targets) == 1 and isinstance(s.targets[0], ast.Subscript) \
+                and not any(isinstance(n, ast.Call) for n in ast.walk(s.value)) and not any(isinstance(n, ast.Call) for n in ast.walk(s.targets[0].value)):
+            # `X[self.h(a)] = v` with a call-free v and X: the index helper is the only call of the statement
+            sl = s.targets[0].slice
+            cands = [c for c in ast.walk(sl) if isinstance(c, ast.Call)]
+            if len(cands) == 1 and self.resolve_call(cands[0]) is not None and not any(isinstance(n, ast.Call) for a_ in cands[0].args for n in ast.walk(a_)):
+                h = self.resolve_call(cands[0])
+                if self._inlinable(h) and not any(isinstance(n, ast.Yield) for n in ast.walk(h)):
+                    self.k += 1
+                    tmp = f"{h.name}__r{self.k}"
+                    self.caller_names.add(tmp)
+                    cands[0]._hoist_marker = True
+
+                    class R3(ast.NodeTransformer):
+                        def visit_Call(self_, n):
+                            if getattr(n, "_hoist_marker", False):
+                                return ast.Name(tmp, ast.Load())
+                            return self_.generic_visit(n)
+                    s3 = copy.deepcopy(s)
+                    s3.targets[0].slice = R3().visit(s3.targets[0].slice)
+                    del cands[0]._hoist_marker
+                    return [ast.copy_location(ast.Assign([ast.Name(tmp, ast.Store())], copy.deepcopy(cands[0])), s), s3]
         top = s.value
         cands = [c for c in ast.walk(top) if isinstance(c, ast.Call) and c is not top and self.resolve_call(c) is not None]
         if len(cands) != 1:
@@ -372,6 +511,8 @@ class Normaliser:
     def block(self, stmts, in_loop=False) -> List[ast.stmt]:
         out: List[ast.stmt] = []
         for i, s in enumerate(stmts):
+            if isinstance(s, ast.AnnAssign) and s.value is not None and isinstance(s.target, ast.Name) and s.simple:
+                s = ast.copy_location(ast.Assign([s.target], s.value), s)       # `x: T = e` binds like `x = e`
             if isinstance(s, ast.Assign) and len(s.targets) == 1 and isinstance(s.targets[0], (ast.Tuple, ast.List)) \
                     and isinstance(s.value, (ast.Tuple, ast.List)) and len(s.targets[0].elts) == len(s.value.elts) \
                     and not any(isinstance(e, ast.Starred) for e in s.targets[0].elts + s.value.elts):
@@ -597,12 +738,208 @@ class Normaliser:
                 setattr(s, fld, [resolve(copy.deepcopy(x)) for x in v])
         return [s]
 
+    # ---------------------------------------------------------------- BETA (a local bound once to a lambda, called)
+    @staticmethod
+    def beta(body: List[ast.stmt]) -> List[ast.stmt]:
+        """`f = lambda a: E` bound exactly once, every use a call `f(x)` with simple arguments, nothing that E captures is rebound:
+        the calls are replaced by E[a := x] and the binding is dropped (how a parameterised helper's callable arguments look after INLINE)"""
+        mod = ast.Module(body=body, type_ignores=[])
+        stores: Dict[str, int] = {}
+        lam: Dict[str, ast.Lambda] = {}
+        for n in ast.walk(mod):
+            if isinstance(n, ast.Name) and isinstance(n.ctx, (ast.Store, ast.Del)):
+                stores[n.id] = stores.get(n.id, 0) + 1
+            elif isinstance(n, ast.arg):
+                stores[n.arg] = stores.get(n.arg, 0) + 1
+        for n in ast.walk(mod):
+            if isinstance(n, ast.Assign) and len(n.targets) == 1 and isinstance(n.targets[0], ast.Name) and isinstance(n.value, ast.Lambda) \
+                    and stores.get(n.targets[0].id) == 1:
+                a = n.value.args
+                if a.vararg or a.kwarg or a.kwonlyargs or a.defaults or a.posonlyargs:
+                    continue
+                own = {x.arg for x in a.args}
+                caps = {x.id for x in ast.walk(n.value.body) if isinstance(x, ast.Name) and x.id not in own}
+                if any(stores.get(c_, 0) > 1 for c_ in caps):
+                    continue
+                lam[n.targets[0].id] = n.value
+        if not lam:
+            return body
+
+        def simple(e):
+            return all(isinstance(x, (ast.Name, ast.Constant, ast.Attribute, ast.Tuple, ast.expr_context)) for x in ast.walk(e))
+        uses = {k: 0 for k in lam}
+        reduced = {k: 0 for k in lam}
+        for n in ast.walk(mod):
+            if isinstance(n, ast.Name) and isinstance(n.ctx, ast.Load) and n.id in lam:
+                uses[n.id] += 1
+
+        class B(ast.NodeTransformer):
+            def visit_Call(self, c):
+                self.generic_visit(c)
+                if isinstance(c.func, ast.Name) and c.func.id in lam and not c.keywords and all(simple(a_) and not isinstance(a_, ast.Starred) for a_ in c.args):
+                    L = lam[c.func.id]
+                    ps = [x.arg for x in L.args.args]
+                    if len(ps) != len(c.args):
+                        return c
+                    sub = dict(zip(ps, c.args))
+
+                    class S(ast.NodeTransformer):
+                        def visit_Name(self, n):
+                            return copy.deepcopy(sub[n.id]) if isinstance(n.ctx, ast.Load) and n.id in sub else n
+
+                        def visit_Lambda(self, n):
+                            return n
+                    reduced[c.func.id] += 1
+                    return ast.copy_location(S().visit(copy.deepcopy(L.body)), c)
+                return c
+        new = [B().visit(st) for st in body]
+        drop = {k for k in lam if uses[k] == reduced[k]}
+
+        def prune(stmts):
+            out = []
+            for st in stmts:
+                if isinstance(st, ast.Assign) and len(st.targets) == 1 and isinstance(st.targets[0], ast.Name) and st.targets[0].id in drop \
+                        and isinstance(st.value, ast.Lambda):
+                    continue
+                for fld in ("body", "orelse", "finalbody"):
+                    v = getattr(st, fld, None)
+                    if isinstance(v, list) and v and all(isinstance(x, ast.stmt) for x in v):
+                        setattr(st, fld, prune(v) or [ast.Pass()])
+                out.append(st)
+            return out
+        return prune(new)
+
+    # ---------------------------------------------------------------- NTUNPACK (a namedtuple value used only through its fields)
+    def nt_unpack(self, body: List[ast.stmt]) -> List[ast.stmt]:
+        """`v = E` bound once, every read of `v` either `v.<field>` of one module-level namedtuple NT or the right-hand side of a tuple unpacking of
+        NT's arity:  `v = E` becomes `v__f0, v__f1 = E` (a namedtuple unpacks like a tuple) and the reads use those names"""
+        if not self.namedtuples:
+            return body
+        mod = ast.Module(body=body, type_ignores=[])
+        stores: Dict[str, List[ast.Assign]] = {}
+        nstores: Dict[str, int] = {}
+        for n in ast.walk(mod):
+            if isinstance(n, ast.Name) and isinstance(n.ctx, (ast.Store, ast.Del)):
+                nstores[n.id] = nstores.get(n.id, 0) + 1
+            elif isinstance(n, ast.arg):
+                nstores[n.arg] = nstores.get(n.arg, 0) + 1
+            if isinstance(n, ast.Assign) and len(n.targets) == 1 and isinstance(n.targets[0], ast.Name):
+                stores.setdefault(n.targets[0].id, []).append(n)
+        parents = {}
+        for n in ast.walk(mod):
+            for ch in ast.iter_child_nodes(n):
+                parents[id(ch)] = n
+        plan = {}
+        for v, defs in stores.items():
+            if len(defs) != 1 or nstores.get(v) != 1:
+                continue
+            loads = [n for n in ast.walk(mod) if isinstance(n, ast.Name) and n.id == v and isinstance(n.ctx, ast.Load)]
+            if not loads:
+                continue
+            attrs, unpacks, ok = set(), [], True
+            for ld in loads:
+                par = parents.get(id(ld))
+                if isinstance(par, ast.Attribute) and par.value is ld and isinstance(par.ctx, ast.Load):
+                    attrs.add(par.attr)
+                elif isinstance(par, ast.Assign) and par.value is ld and len(par.targets) == 1 and isinstance(par.targets[0], (ast.Tuple, ast.List)) \
+                        and not any(isinstance(e, ast.Starred) for e in par.targets[0].elts):
+                    unpacks.append(par)
+                else:
+                    ok = False
+                    break
+            if not ok or not attrs:
+                continue
+            cands = [(nm, f) for nm, f in self.namedtuples.items() if attrs <= set(f) and all(len(u.targets[0].elts) == len(f) for u in unpacks)]
+            if len({f for _, f in cands}) != 1:
+                continue
+            plan[v] = (cands[0][1], defs[0])
+        if not plan:
+            return body
+
+        class R(ast.NodeTransformer):
+            def visit_Attribute(self_, n):
+                if isinstance(n.value, ast.Name) and n.value.id in plan and isinstance(n.ctx, ast.Load) and n.attr in plan[n.value.id][0]:
+                    return ast.copy_location(ast.Name(f"{n.value.id}__{n.attr}", ast.Load()), n)
+                return self_.generic_visit(n)
+
+            def visit_Assign(self_, n):
+                if len(n.targets) == 1 and isinstance(n.targets[0], ast.Name) and n.targets[0].id in plan and n is plan[n.targets[0].id][1]:
+                    v = n.targets[0].id
+                    n.value = self_.visit(n.value)
+                    n.targets = [ast.Tuple([ast.Name(f"{v}__{f}", ast.Store()) for f in plan[v][0]], ast.Store())]
+                    return n
+                if isinstance(n.value, ast.Name) and n.value.id in plan and len(n.targets) == 1 and isinstance(n.targets[0], (ast.Tuple, ast.List)):
+                    v = n.value.id
+                    n.value = ast.Tuple([ast.Name(f"{v}__{f}", ast.Load()) for f in plan[v][0]], ast.Load())
+                    return n
+                return self_.generic_visit(n)
+        for v in plan:
+            self.caller_names |= {f"{v}__{f}" for f in plan[v][0]}
+        return [ast.fix_missing_locations(R().visit(st)) for st in body]
+
+    # ---------------------------------------------------------------- ATTRFWD (store-to-load forwarding of self attributes, straight-line)
+    @staticmethod
+    def attr_forward(body: List[ast.stmt]) -> List[ast.stmt]:
+        """top-level `self.a = v` (v a plain name that is not rebound afterwards) followed by reads of `self.a`: the reads become `v` as long as
+        nothing in between can write the attribute (an assignment to it, or a call on / with `self` that was not inlined)"""
+        mod = ast.Module(body=body, type_ignores=[])
+        stores: Dict[str, int] = {}
+        for n in ast.walk(mod):
+            if isinstance(n, ast.Name) and isinstance(n.ctx, (ast.Store, ast.Del)):
+                stores[n.id] = stores.get(n.id, 0) + 1
+            elif isinstance(n, ast.arg):
+                stores[n.arg] = stores.get(n.arg, 0) + 1
+        known: Dict[str, str] = {}
+
+        def invalidates(st):
+            bad = set()
+            for n in ast.walk(st):
+                if isinstance(n, ast.Attribute) and isinstance(n.ctx, (ast.Store, ast.Del)) and isinstance(n.value, ast.Name) and n.value.id == "self":
+                    bad.add(n.attr)
+                if isinstance(n, ast.Call):
+                    f = n.func
+                    on_self = isinstance(f, ast.Attribute) and isinstance(f.value, ast.Name) and f.value.id == "self"
+                    sup = isinstance(f, ast.Attribute) and isinstance(f.value, ast.Call) and isinstance(f.value.func, ast.Name) and f.value.func.id == "super"
+                    with_self = any(isinstance(a_, ast.Name) and a_.id == "self" for a_ in list(n.args) + [k.value for k in n.keywords])
+                    if on_self or sup or with_self or (isinstance(f, ast.Name) and f.id in ("setattr", "delattr", "vars")):
+                        bad.add("*")
+            return bad
+        out = []
+        for st in body:
+            if known:
+                class F(ast.NodeTransformer):
+                    def visit_Attribute(self_, n):
+                        self_.generic_visit(n)
+                        if isinstance(n.ctx, ast.Load) and isinstance(n.value, ast.Name) and n.value.id == "self" and n.attr in known:
+                            return ast.copy_location(ast.Name(known[n.attr], ast.Load()), n)
+                        return n
+                bad = invalidates(st)
+                # within a compound statement the substitution is only made when the statement itself cannot write the attributes
+                if not bad or not isinstance(st, (ast.For, ast.While, ast.If, ast.With, ast.Try)):
+                    if isinstance(st, ast.Assign):
+                        st.value = F().visit(st.value)       # the right-hand side is evaluated before this statement's own store
+                    elif not bad:
+                        st = F().visit(st)
+                if "*" in bad:
+                    known.clear()
+                else:
+                    for a_ in bad:
+                        known.pop(a_, None)
+            if isinstance(st, ast.Assign) and len(st.targets) == 1 and isinstance(st.targets[0], ast.Attribute) and isinstance(st.targets[0].value, ast.Name) \
+                    and st.targets[0].value.id == "self" and isinstance(st.value, ast.Name) and stores.get(st.value.id, 0) <= 1:
+                known[st.targets[0].attr] = st.value.id
+            out.append(st)
+        return out
+
     # ---------------------------------------------------------------- driver
     def function(self, fn: ast.FunctionDef) -> ast.FunctionDef:
         out = copy.deepcopy(fn)
         self.caller_names = {n.id for n in ast.walk(fn) if isinstance(n, ast.Name)} | {a.arg for a in ast.walk(fn) if isinstance(a, ast.arg)}
         body = [s for s in out.body if not (isinstance(s, ast.Expr) and isinstance(s.value, ast.Constant) and isinstance(s.value.value, str))]
         body = self.inline_block(body)
+        body = self.beta(body)
+        body = self.attr_forward(body)
+        body = self.nt_unpack(body)
         out.body = self.block(body)
         out.body = self.version_block(out.body)
         out = self.alias(out)
@@ -638,13 +975,28 @@ def class_resolver(mod: ast.Module, cls: Optional[ast.ClassDef] = None, exclude=
         out.update({m.name: m for m in c.body if isinstance(m, ast.FunctionDef)})
         return out
     ms = methods(cls)
+    base_ms = {}
+    if cls is not None:
+        for b in cls.bases:
+            bn = ast.unparse(b).split(".")[-1]
+            if bn in classes:
+                base_ms.update(methods(classes[bn], (cls.name,)))
 
     def resolve(call: ast.Call):
         f = call.func
+        if isinstance(f, ast.Attribute) and isinstance(f.value, ast.Call) and isinstance(f.value.func, ast.Name) and f.value.func.id == "super" \
+                and not f.value.args and not f.value.keywords:
+            return None if f.attr in exclude else base_ms.get(f.attr)
         if isinstance(f, ast.Attribute) and isinstance(f.value, ast.Name) and f.value.id in ("self", "cls"):
             return None if f.attr in exclude else ms.get(f.attr)
         if isinstance(f, ast.Name) and module_funcs:
-            return None if f.id in exclude else funcs.get(f.id)
+            h = None if f.id in exclude else funcs.get(f.id)
+            if h is not None and module_funcs == "small":
+                # only one-expression wrappers (`def _sorted_by_name(xs): return sorted(xs, key=...)`)
+                body = [s_ for s_ in h.body if not (isinstance(s_, ast.Expr) and isinstance(s_.value, ast.Constant))]
+                if not (len(body) == 1 and isinstance(body[0], ast.Return)):
+                    return None
+            return h
         return None
     return resolve
 
@@ -1049,6 +1401,37 @@ def canon_calls(tree: ast.Module) -> int:
     return n
 
 
+def _is_name_key(k, table) -> bool:
+    """does the sort key `k` map an element to its .name?"""
+    if isinstance(k, ast.Lambda) and len(k.args.args) == 1 and not k.args.defaults and isinstance(k.body, ast.Attribute) and k.body.attr == "name" \
+            and isinstance(k.body.value, ast.Name) and k.body.value.id == k.args.args[0].arg:
+        return True
+    if isinstance(k, ast.Call) and ast.unparse(k.func) in ("attrgetter", "operator.attrgetter") and len(k.args) == 1 and not k.keywords \
+            and isinstance(k.args[0], ast.Constant) and k.args[0].value == "name":
+        return True
+    if isinstance(k, ast.Name) and k.id in table:
+        return True
+    return False
+
+
+class _SortKey(ast.NodeTransformer):
+    """SORTKEY: every spelling of "sorted by .name" becomes `sorted(X, key=lambda x: x.name)`"""
+
+    def __init__(self, table):
+        self.table = table
+        self.n = 0
+
+    def visit_Call(self, c):
+        self.generic_visit(c)
+        if isinstance(c.func, ast.Name) and c.func.id == "sorted" and len(c.args) == 1 and len(c.keywords) == 1 and c.keywords[0].arg == "key" \
+                and _is_name_key(c.keywords[0].value, self.table):
+            canon = ast.parse("lambda x: x.name", mode="eval").body
+            if ast.dump(c.keywords[0].value) != ast.dump(canon):
+                self.n += 1
+            c.keywords[0].value = ast.copy_location(canon, c)
+        return c
+
+
 def canon_module(tree: ast.Module) -> ast.Module:
     """FORWARD + CMPDIR over every function of the module (in place); records the counts on the tree"""
     nf = 0
@@ -1064,6 +1447,24 @@ def canon_module(tree: ast.Module) -> ast.Module:
             nf += forward_temps(n)
     nk = canon_calls(tree)
     _CmpDir().visit(tree)
+    # module-level names that are "the .name of an element" (bound once, never rebound in a function)
+    table = set()
+    counts: Dict[str, int] = {}
+    for st in tree.body:
+        if isinstance(st, ast.Assign) and len(st.targets) == 1 and isinstance(st.targets[0], ast.Name):
+            counts[st.targets[0].id] = counts.get(st.targets[0].id, 0) + 1
+    rebound = {x.id for f in ast.walk(tree) if isinstance(f, (ast.FunctionDef, ast.Lambda)) for x in ast.walk(f) if isinstance(x, ast.Name) and isinstance(x.ctx, ast.Store)}
+    for st in tree.body:
+        if isinstance(st, ast.Assign) and len(st.targets) == 1 and isinstance(st.targets[0], ast.Name) and counts[st.targets[0].id] == 1 \
+                and st.targets[0].id not in rebound and _is_name_key(st.value, set()):
+            table.add(st.targets[0].id)
+        elif isinstance(st, ast.FunctionDef) and st.name not in rebound and st.name not in counts and len(st.args.args) == 1 and not st.decorator_list:
+            body = [b for b in st.body if not (isinstance(b, ast.Expr) and isinstance(b.value, ast.Constant))]
+            if len(body) == 1 and isinstance(body[0], ast.Return) and isinstance(body[0].value, ast.Attribute) and body[0].value.attr == "name" \
+                    and isinstance(body[0].value.value, ast.Name) and body[0].value.value.id == st.args.args[0].arg:
+                table.add(st.name)
+    sk = _SortKey(table)
+    sk.visit(tree)
     ast.fix_missing_locations(tree)
-    tree._canon = {"forwarded": nf, "calls": nk}
+    tree._canon = {"forwarded": nf, "calls": nk, "sortkeys": sk.n}
     return tree
